@@ -335,7 +335,7 @@ theorem hdrFor_statusLine (r : WResp) (f : Framing) : (r.hdrFor f).statusLine = 
 status, the dedicated fields, the generic fields in order, the cookies and the framing as
 `seenHeadFor` says, and stops exactly at the end of the head. -/
 theorem readHeaders_hdrFor (dn : Bool) (e : End) (r : WResp) (f : Framing) (rest : Bytes) (p : HeadParts dn r)
-    (h100 : r.status ≠ 100) (hn : ∀ n, f = .cl n → n < 2 ^ 63) :
+    (h100 : isInterim r.status = false) (hn : ∀ n, f = .cl n → n < 2 ^ 63) :
     readHeaders dn e ((r.hdrFor f).bytes ++ rest) = .ok (r.seenHeadFor f, rest) := by
   have hwire : (r.hdrFor f).bytes ++ rest =
       statusLine r.status r.reason ++ strCRLF ++ HW.block (r.hdrFor f).fields ++ rest := by
@@ -376,10 +376,10 @@ theorem readHeaders_hdrFor (dn : Bool) (e : End) (r : WResp) (f : Framing) (rest
 /-! ### (1) statuses that forbid a body: 1xx other than 100, 204, 304 -/
 
 /-- well-formed bodiless response: a status for which `MustSkipContentLength` holds, other than the
-interim `100` (which `ReadHeaders` skips), and a well-formed head; the body the handler may have set
+interim `100` / `102` / `103` (which `ReadHeaders` skips), and a well-formed head; the body the handler may have set
 is arbitrary - it is not sent -/
 def wfBodiless (dn : Bool) (r : WResp) : Bool :=
-  RespRead.mustSkipCL r.status && r.status != 100 && wfHeadB dn r
+  RespRead.mustSkipCL r.status && !isInterim r.status && wfHeadB dn r
 
 theorem frame_bodiless (r : WResp) (isHead : Bool) (hs : RespRead.mustSkipCL r.status = true) :
     frame r.prog isHead = { framing := .none, wire := [] } := by
@@ -398,7 +398,7 @@ theorem response_roundtrip_bodiless (dn : Bool) (maxBody : Nat) (e : End) (r : W
     (hw : wfBodiless dn r = true) :
     readResponse dn maxBody e (respWireH r isHead ++ rest) =
       .ok { head := r.seenHeadBodiless, body := [], trailers := [], rest := rest } := by
-  simp only [wfBodiless, Bool.and_eq_true, bne_iff_ne, ne_eq] at hw
+  simp only [wfBodiless, Bool.and_eq_true, Bool.not_eq_true'] at hw
   obtain ⟨⟨hs, h100⟩, hh⟩ := hw
   have p := wfHeadB_parts hh
   unfold readResponse
@@ -428,7 +428,7 @@ theorem response_roundtrip_bodiless_declared (dn : Bool) (maxBody : Nat) (e : En
     (hw : wfBodiless dn r = true) (hn : ∀ n, f = .cl n → n < 2 ^ 63) :
     readResponse dn maxBody e ((r.hdrFor f).bytes ++ rest) =
       .ok { head := r.seenHeadFor f, body := [], trailers := [], rest := rest } := by
-  simp only [wfBodiless, Bool.and_eq_true, bne_iff_ne, ne_eq] at hw
+  simp only [wfBodiless, Bool.and_eq_true, Bool.not_eq_true'] at hw
   obtain ⟨⟨hs, h100⟩, hh⟩ := hw
   have p := wfHeadB_parts hh
   unfold readResponse
@@ -475,10 +475,10 @@ theorem frame_head (r : WResp) : frame r.prog true = { framing := r.headFraming,
       | cons x t => simp [frame, WResp.prog, mustSkip_same, hs, WResp.headFraming]
     | chunked rs => simp [frame, WResp.prog, mustSkip_same, hs, WResp.headFraming]
 
-/-- well-formed answer to HEAD: any status but the interim `100`, a well-formed head, a body length
+/-- well-formed answer to HEAD: any status but the interim `100` / `102` / `103`, a well-formed head, a body length
 that fits an `int` (sizes of stream pieces do not matter: nothing of the body is sent) -/
 def wfRespH (dn : Bool) (r : WResp) : Bool :=
-  r.status != 100 && wfHeadB dn r &&
+  !isInterim r.status && wfHeadB dn r &&
   (match r.body with
    | .fixed b => decide (b.length < 2 ^ 63)
    | .chunked _ => true)
@@ -505,7 +505,7 @@ that was not sent - and stops exactly at its end: no body byte is on the wire, w
 theorem response_head_HEAD (dn : Bool) (e : End) (r : WResp) (rest : Bytes) (hw : wfRespH dn r = true) :
     readHeaders dn e (respWireH r true ++ rest) = .ok (r.seenHeadFor r.headFraming, rest) := by
   have hb := headFraming_bound hw
-  simp only [wfRespH, Bool.and_eq_true, bne_iff_ne, ne_eq] at hw
+  simp only [wfRespH, Bool.and_eq_true, Bool.not_eq_true'] at hw
   have p := wfHeadB_parts hw.1.2
   rw [respWireH, frame_head r, List.append_nil]
   exact readHeaders_hdrFor dn e r r.headFraming rest p hw.1.1 hb
@@ -538,8 +538,7 @@ theorem response_roundtrip_until_close (dn : Bool) (maxBody : Nat) (e : End) (r 
   simp only [wfRespC, Bool.and_eq_true, Bool.not_eq_true'] at hw
   obtain ⟨hs, hh⟩ := hw
   have p := wfHeadB_parts hh
-  have h100 : r.status ≠ 100 := by
-    intro e100; rw [e100] at hs; exact absurd hs (by decide)
+  have h100 : isInterim r.status = false := notInterim_of_notSkip r.status hs
   have hlim : ¬ (maxBody > 0 ∧ r.body.content.length > maxBody) := by omega
   unfold readResponse
   rw [closeWire, show r.hdrNone = r.hdrFor .none from rfl,
